@@ -264,7 +264,8 @@ def run(tier, replay=None):
     runs = 700 if thorough else 110
     dout = vlib.run_harness(bins["drive_relay"], ["--seed", str(seed), "--runs", str(runs), "--lanes", "6" if thorough else "5",
                                                   "--big", "1" if thorough else "0", "--out", trace, "--plans-out", plans,
-                                                  "--parks-out", parks], timeout=3400)
+                                                  "--parks-out", parks, "--extra-plans", os.path.join(vlib.ROOT, "assets", "c01_known.plans")],
+                           timeout=3400)
     ds = [o for o in dout if o.get("kind") == "summary"]
     if not ds:
         raise vlib.ToolError("drive_relay produced no summary")
@@ -331,6 +332,12 @@ def run(tier, replay=None):
             flagged += [(h, e) for h, e in cur if h.get(flag) and any(x.get("k") == "endrcvd" and x.get("kind") == "abort" for x in e)
                         and any(x.get("k") == "endsent" and x.get("kind") == "clean" for x in e) and not h.get("companion_aborted")]
             if not flagged:
+                # no event that only the deviation explains; the hook-derived flag alone shows that the code path ran
+                # (e.g. the iteration budget cut uploads in progress: their senders never ended cleanly)
+                runs_flagged = {h["run"] for h, e in cur if h.get(flag)}
+                if runs_flagged:
+                    rep.known_finding_seen(fid)
+                    rep.known[fid]["n"] += len(runs_flagged) - 1
                 continue
             t0 = vlib.tlc_trace("Trace_Relay", trace_cfg(wd, "trace_no_%s.cfg" % d, [x for x in devs if x != d]), PID, cur_path, timeout=1500)
             rep.add_tlc(t0)
